@@ -17,7 +17,7 @@ def run(chk):
     chk.run('asan-pat', build(), per)
     chk.rule = ('case classes rotate over the case index: random-byte files; well-formed trees with 1-4 hostile mutations (NUL, no final newline, lines of '
                 '20477..61440 bytes, 100-600 begin lines, lone %, missing/repeated/cyclic %include, empty file, damaged magic line, %preproc, backquote/%exec, '
-                '%get( nested up to 300 deep, byte flips, truncation); registration stress (1..300 contexts, 0..300 built-ins) with the C09 model while inside the '
+                '%get( nested up to 3000 deep, include chains of 250-262 distinct files, byte flips, truncation); registration stress (1..300 contexts, 0..300 built-ins) with the C09 model while inside the '
                 '8-bit id space; spifconf_find_file with lengths up to 70000 and 0..50 components; lifecycle programs (init, register, parse 1-3 trees, %put, free) x 1..5 '
                 'with heap balance and cycle equality; spiftool_temp_file x 200 per case.  Every scenario with a heap balance is executed twice, a residue counts only if '
                 'it repeats.  distinct = distinct (mutation kind, file class), (lengths classes, result), (registration counts), ... hashes')
@@ -28,7 +28,7 @@ def run(chk):
     for name, n in (('bytes_cases', 500), ('mutated_tree_cases', 1000), ('registration_cases', 200), ('find_cases', 100), ('lifecycle_programs', 300), ('temp_cases', 100),
                     ('temp_files_created', 5000), ('heap_balance_checks', 2000), ('no_spawn_checked', 1000), ('spawn_monitor_hits', 20), ('long_lines', 50),
                     ('many_begins', 50), ('percent_lines', 50), ('bad_includes', 50), ('cyclic_includes', 20), ('empty_files', 50), ('magic_damaged', 50),
-                    ('preproc_lines', 50), ('exec_lines', 50), ('deep_nesting_lines', 50), ('find_file_found', 100), ('find_file_null', 100), ('find_file_huge_path', 50),
+                    ('preproc_lines', 50), ('exec_lines', 50), ('deep_nesting_lines', 50), ('nesting_450_plus_lines', 15), ('include_chains_over_255', 5), ('find_file_found', 100), ('find_file_null', 100), ('find_file_huge_path', 50),
                     ('find_file_name_at_limit', 20), ('lifecycle_cycles', 900), ('reg_contexts_160_plus', 20), ('reg_builtins_160_plus', 5), ('parse_via_path', 100),
                     ('events_checked', 10000)):
         chk.require(name, n)
